@@ -26,7 +26,7 @@ SPECS = [
     ('index_tree', True), ('pack_iqu', True), ('pack_iqu_T', True),
     ('bdiag_left', True), ('bdiag_right', True), ('bdiag_left_T', True),
     ('diag_a', True), ('diag_m_axis0', True), ('diag_tree', True), ('diag_a_inv', True), ('diag_zero_inv', True),
-    ('dense_complex', True), ('diag_complex', True), ('hom_complex', True), ('toep_os_short', False), ('k_int_times', True), ('k_float_times', True),
+    ('dense_complex', True), ('diag_complex', True), ('hom_complex', True), ('bdiag_complex', True), ('bdiag_complex_T', True), ('toep_os_short', False), ('k_int_times', True), ('k_float_times', True),
     ('dense_stokes', True), ('diag_tree_mixed', True), ('hom_tree_mixed', True), ('hom_unit_widening', True), ('diag_blocks_paramfree', True),
     ('diag_2d', True), ('diag_5', True), ('diag_tree_neg', True), ('dense_widening', True), ('bdiag_widening', True),
     ('lazy_inv_spd', False), ('toast_obs', True), ('toast_obs_T', True),
@@ -39,7 +39,7 @@ EXACT = dict(SPECS)
 NO_TRANSPOSE = {'lazy_inv_spd'}          # the library does not support transposes of the iterative inverse
 # opt_*: constructions the library may legitimately refuse (ValueError/TypeError); if it accepts them, every oracle applies
 OPTIONAL = {'opt_k1arr_times_0d', 'opt_0d_div_k1arr', 'opt_k11arr_times_tree0d', 'opt_diag_trailing_unit'}
-SINGLE_ONLY = OPTIONAL | {'toep_os_oddfft', 'toep_os_minfft', 'comp_ptp_index', 'comp_ppt_index_unique', 'comp_ptp_index_2d', 'toep_os_n8', 'toep_os_k2n6', 'toep_os_k1n3', 'toep_os', 'toep_batched', 'toep_os_short', 'dense_widening', 'bdiag_widening', 'dense_complex', 'diag_complex', 'hom_complex', 'diag_tree_mixed', 'hom_tree_mixed', 'hom_unit_widening'}  # widening: float16 data would overflow in products  # ~100 ms per application (fori_loop re-traced): singles only; C09 owns the methods
+SINGLE_ONLY = OPTIONAL | {'toep_os_oddfft', 'toep_os_minfft', 'comp_ptp_index', 'comp_ppt_index_unique', 'comp_ptp_index_2d', 'toep_os_n8', 'toep_os_k2n6', 'toep_os_k1n3', 'toep_os', 'toep_batched', 'toep_os_short', 'dense_widening', 'bdiag_widening', 'dense_complex', 'diag_complex', 'hom_complex', 'bdiag_complex', 'bdiag_complex_T', 'diag_tree_mixed', 'hom_tree_mixed', 'hom_unit_widening'}  # widening: float16 data would overflow in products  # ~100 ms per application (fori_loop re-traced): singles only; C09 owns the methods
 MASKED = {'index_mask', 'pack_iqu', 'pack_iqu_T'}  # boolean-mask selection: excluded from the filter_jit-as-argument claim
 
 _MEMO: dict = {}
@@ -284,9 +284,12 @@ def _build(name, dt):
         return Dg().I
     if name == 'diag_zero_inv':
         return DiagonalOperator(arr([2, 0]), in_structure=a).I
-    if name in ('dense_complex', 'diag_complex', 'hom_complex'):   # complex-valued parameters: the transpose must NOT conjugate
+    if name in ('dense_complex', 'diag_complex', 'hom_complex', 'bdiag_complex', 'bdiag_complex_T'):   # complex-valued parameters: the transpose must NOT conjugate
         C = jnp.complex64 if dt == 'f32' else jnp.complex128
         ac = jax.ShapeDtypeStruct((2,), C)
+        if name.startswith('bdiag_complex'):   # its transpose is the library's generic lazy TransposeOperator
+            o = BroadcastDiagonalOperator(jnp.asarray([[1 + 2j, 3, -1j], [2 - 1j, 4, 0.5j]], C), axis_destination=-1, in_structure=jax.ShapeDtypeStruct((3,), C))
+            return o.T if name.endswith('_T') else o
         if name == 'dense_complex':
             return DenseBlockDiagonalOperator(jnp.asarray([[1 + 2j, 3], [-1j, 2 - 1j], [4, 0.5j]], C), ac, 'ij,j->i')
         if name == 'diag_complex':
@@ -396,6 +399,9 @@ def materialize(case):
     if P.same_struct(ai, bo):
         yield dict(case, form='A@B'), A @ B, exact
         yield dict(case, form='3*(A@B)'), 3 * (A @ B), exact
+        if case.get('xf'):   # scalar factors that are not the leftmost operand, and one that has to be rebuilt (C05, C01)
+            yield dict(case, form='A@(3*B)'), A @ (3 * B), exact
+            yield dict(case, form='-(3*A)@B'), -(3 * A) @ B, exact
     if P.same_struct(ai, bi) and P.same_struct(ao, bo):
         yield dict(case, form='A+B'), A + B, exact
         yield dict(case, form='A-B'), A - B, exact
